@@ -96,6 +96,7 @@ func runC12(c *eng.Ctx) {
 	// ---------------------------------------------------------------- (2) DELTA
 	sink := eng.CallTo("topology.NodeImpl).UpAdjustDiskUsageDelta", "topology.Node).UpAdjustDiskUsageDelta")
 	nSinkLoop := 0
+	nSigned := 0
 	for _, fn := range P.SrcFuncs("weed/topology") {
 		for si, s := range eng.Find(fn, sink) {
 			cyc := eng.CycleOf(s.Block())
@@ -127,6 +128,24 @@ func runC12(c *eng.Ctx) {
 		}
 		for f, sts := range usageStores(fn) {
 			for i, st := range sts {
+				// a delta may be negative: a difference taken in an unsigned type wraps when the new value is the smaller one
+				var wraps *ssa.BinOp
+				eng.Walk(st.Val, 8, func(x ssa.Value) bool {
+					if b, ok := x.(*ssa.BinOp); ok && b.Op == token.SUB {
+						if bt, isB := b.Type().Underlying().(*types.Basic); isB && bt.Info()&types.IsUnsigned != 0 {
+							wraps = b
+						}
+					}
+					return true
+				})
+				if wraps != nil || eng.Mentions(st.Val, 8, func(x ssa.Value) bool { b, ok := x.(*ssa.BinOp); return ok && b.Op == token.SUB }) {
+					nSigned++
+					c.Touch(fn)
+					c.Ob("DELTA-signed", fmt.Sprintf("%s %s#%d", eng.FuncName(fn), f, i), wraps == nil, st.Pos(),
+						"a difference stored into a usage counter is computed in a signed type (a shrinking value must yield a negative delta, not a wrapped one)")
+				}
+			}
+			for i, st := range sts {
 				cyc := eng.CycleOf(st.Block())
 				if len(cyc) == 0 {
 					continue
@@ -149,6 +168,8 @@ func runC12(c *eng.Ctx) {
 			}
 		}
 	}
+	c.Expect("DELTA-signed", 5)
+	_ = nSigned
 	if nSinkLoop < 4 {
 		c.Undecided("DELTA-object", "discovery", token.NoPos, fmt.Sprintf("only %d in-loop UpAdjustDiskUsageDelta sites found (expected >= 4)", nSinkLoop))
 	}
